@@ -3,6 +3,7 @@
 # quick check of <PROP> against each confirmed patch (sens.py); results in /tmp/sens_out_agent-<id>.txt
 cd /verif
 p=$1; vg=$2
+exec 8>/tmp/intake.lock; flock 8   # one sensitivity run at a time
 for N in 1 2; do
   id=$p-$((N+2))
   python3 seeded/verify_agent.py /tmp/r3_$p/_mut $N $p $id $vg 2>&1 | tail -2
